@@ -23,8 +23,10 @@ SCEN = {
     "h4a": "A:pinit A:init B:init A:x B:x A:ev8 B:j100 A:f B:e A:e B:f A:f A:free B:free A:pfini",
     "h4b": "A:pinit A:init A:x A:j3000 A:j3000 A:e A:f A:free B:init B:x B:ev4 B:e B:f B:free B:pfini",
     "h4c": "B:pinit B:init A:init B:x A:x B:j3000 B:j3000 A:ev8 B:e A:e B:f A:f B:free A:free B:pfini",
+    # a thread id used again inside one run: C traces under A's tid after A has ended ("|" separates the earlier owner's life)
+    "h7": "A:pinit A:init A:x A:ev16 A:e A:f A:free | C:init C:x C:j4032 C:e C:f C:x C:ev16 C:e C:f C:free A:pfini",
 }
-TIDS = {"A": 101, "B": 102}
+TIDS = {"A": 101, "B": 102, "C": 101}
 
 LINE = re.compile(r"^(\d+)\s+(\w+)\((.*)\)\s+= (-?\d+|\?)(.*)$")
 
@@ -60,7 +62,7 @@ def flushed_bytes(log, tracked_prefix):
             m = re.search(r'thread\.(\d+)/stream\.obs', args)
             if m and tracked_prefix in args:
                 fds[int(ret)] = int(m.group(1))
-                out.setdefault(int(m.group(1)), 0)
+                out[int(m.group(1))] = 0        # a new stream of this thread id starts (also when the id is used again)
         elif sc == "write" and ret not in ("?",) and int(ret) > 0:
             fd = int(args.split(",")[0])
             if fd in fds:
@@ -106,7 +108,7 @@ class Runner:
             p0 = subprocess.run([self.exe] + SCEN["h2"].split(), env=env, stdout=subprocess.PIPE, stderr=subprocess.PIPE, timeout=60)
             if p0.returncode != 0:
                 raise InfraError("earlier run failed: %s" % p0.stderr.decode("latin1")[-300:])
-        cmd += [self.exe] + SCEN[scen.split(":")[-1]].split()
+        cmd += [self.exe] + [o for o in SCEN[scen.split(":")[-1]].split() if o != "|"]
         r = subprocess.run(cmd, env=env, stdout=subprocess.PIPE, stderr=subprocess.PIPE, timeout=60)
         return {"dir": d, "rc": r.returncode, "stderr": r.stderr.decode("latin1"), "log": parse_log(log), "final": env["OVNI_TRACEDIR"],
                 "tmp": env.get("OVNI_TMPDIR")}
@@ -176,7 +178,7 @@ def run_c09(prop, tier):
     try:
         build = Build()
         runner = Runner(build, scratch)
-        scens = ["h1", "h3", "h4a", "r:h3"] if tier == "quick" else list(SCEN) + ["r:h3", "r:h1", "r:h5"]
+        scens = ["h1", "h3", "h4a", "r:h3", "h7"] if tier == "quick" else [k for k in SCEN if not k.startswith("_")] + ["r:h3", "r:h1", "r:h5"]
         modes = [("direct", None), ("tmpdir", "json-first"), ("tmpdir", "obs-first")]
         jobs = []
         refs = {}
@@ -187,6 +189,12 @@ def run_c09(prop, tier):
                 tag = "%s-%s-%s" % (sc, mode[0], mode[1])
                 r, full, seq = plan(runner, sc, mode, tag)
                 refs[(sc, mode)] = full
+                if "|" in SCEN[sc.split(":")[-1]]:
+                    # what the first owner of the thread id leaves behind
+                    SCEN["_old_" + sc] = SCEN[sc].split("|")[0]
+                    r0 = runner.run(tag + "-old", "_old_" + sc, mode)
+                    olds[(sc, mode)] = {tid: (read(os.path.join(dp, "stream.json")), read(os.path.join(dp, "stream.obs")))
+                                        for tid, dp in thread_dirs(r0["final"]).items()}
                 if sc.startswith("r:"):
                     # what the earlier run alone leaves behind (a thread directory still in that state was not touched yet)
                     r0 = runner.run(tag + "-old", "h2", mode)
@@ -259,7 +267,7 @@ def run_c09(prop, tier):
         ctx.cov["accepted_by_emulator_after_kill"] = acc
         ctx.cov["kill_points_shadowed_by_per_thread_counting"] = nshadow
         ctx.cov["rule"] = ("scenarios (minimal; several explicit/automatic flushes > 8 KiB; first life ending exactly on a 4096-byte boundary then a second life; "
-                           "metadata flush in the middle; two threads in three serialisations; r:<scenario> = the same after a complete earlier run of another program with the same pid/tid in the same directories) x {direct, OVNI_TMPDIR with stream.json or stream.obs returned first "
+                           "metadata flush in the middle; two threads in three serialisations; a thread id used again after its first owner ended; r:<scenario> = the same after a complete earlier run of another program with the same pid/tid in the same directories) x {direct, OVNI_TMPDIR with stream.json or stream.obs returned first "
                            "by readdir}: the process is killed before every syscall that changes the file system (kills before calls without effect leave the same "
                            "state); oracle P1: if ovniemu accepts, every loaded stream contains all bytes its thread had flushed; P2: a finished stream.json in the "
                            "final directory implies the complete stream.obs next to it")
